@@ -192,7 +192,8 @@ Inductive label :=
 | LAccept (c : N)    (* a socket is accepted and the protocol header read: connection.start goes out *)
 | LBadMethod (c h : N)   (* a well-framed method frame whose payload does not decode (unknown class or method id,
                             truncated arguments): channel.handleIncoming answers with a connection error *)
-| LHeartbeat (c h : N).  (* a heartbeat frame: legal on channel 0 at any time, fatal on any other channel *)
+| LHeartbeat (c h : N)   (* a heartbeat frame: legal on channel 0 at any time, fatal on any other channel *)
+| LRestart.              (* the broker is stopped (gracefully, nothing pending in the store) and started again *)
 
 (* reply codes (amqp/constants_generated.go) and class/method ids *)
 Definition NoRoute := 312. Definition AccessRefused := 403. Definition NotFound := 404.
@@ -1097,6 +1098,35 @@ Definition live_events (s : state) (evs : list event) : list event :=
                    match f with SConnGone => true | _ => match get_conn s c with Some _ => true | None => false end end) evs.
 
 (* ------------------------------------------------------------------ *)
+(* restart (server.Stop, then NewServer + Start on the same storage; vhost.go: NewVhost): durable exchanges and queues
+   come back with the bindings between them, each durable queue holds exactly its stored messages in message-id
+   order, everything else is gone *)
+Definition sort_asc_N (l : list N) : list N := rev (sort_desc_N l).
+Definition stored_of (s : state) (qn : string) : list N :=
+  sort_asc_N (map fst (filter (fun k => seqb (snd k) qn) (st_db s))).
+Definition restart (cfg : config) (s : state) : state * list event :=
+  let durq := filter (fun kv => q_durable (snd kv)) (queues s) in
+  let rq (kv : string * queue) :=
+    let l := stored_of s (fst kv) in
+    let n := Z.of_nat (List.length l) in
+    (fst kv, new_queue (q_id (snd kv)) 0 true false (q_autodel (snd kv))
+               <| q_ready := l |> <| q_len := n |> <| q_mready := n |> <| q_mtotal := n |>) in
+  let queues' := map rq durq in
+  let keepb (b : binding) := existsb (fun kv => seqb (fst kv) (b_queue b)) durq in
+  (* the stored form of an exchange is its name and type (exchange.go: Marshal): a durable exchange that was declared
+     auto-delete or internal comes back plain (finding F22) *)
+  let exs := map (fun kv => (fst kv, (if e_system (snd kv) then snd kv else (snd kv) <| e_autodel := false |> <| e_internal := false |>)
+                                        <| e_bindings ::= filter keepb |>))
+                 (filter (fun kv => e_system (snd kv) || e_durable (snd kv)) (exchanges s)) in
+  let total := fold_left (fun z kv => (z + q_len (snd kv))%Z) queues' 0%Z in
+  ({| conns := []; queues := queues'; exchanges := exs;
+      heap := map (fun kv => (fst kv, (snd kv) <| m_conf := None |>)) (heap s);
+      next_uid := next_uid s; next_cid := next_cid s; next_qid := next_qid s; autodel := [];
+      st_add := []; st_db := filter (fun k => existsb (fun kv => seqb (fst kv) (snd k)) durq) (st_db s); st_del := []; relay := [];
+      srv_ready := total; srv_unacked := 0; srv_total := total |},
+   map (fun kv => (fst kv, 0, SConnGone)) (conns s)).
+
+(* ------------------------------------------------------------------ *)
 (* the step function *)
 Definition ensure_chan (s : state) (c h : N) : state :=
   match get_conn s c with
@@ -1161,6 +1191,7 @@ Definition step (cfg : config) (fx : fixes) (s : state) (l : label) : state * li
     | None => (s, [])
     | Some _ => if h =? 0 then (s, []) else conn_close cfg fx s c
     end
+  | LRestart => restart cfg s
   | LAccept c =>
     match get_conn s c with
     | Some _ => (s, [])
